@@ -58,6 +58,12 @@ def eq(a, b):
         return False
 
 
+def _has_unknown(v):
+    if isinstance(v, tuple):
+        return any(_has_unknown(x) for x in v)
+    return v is None or is_unknown(v)
+
+
 def as_rat(v):
     """values that may sit inside an opaque application"""
     if isinstance(v, tuple):
@@ -67,6 +73,11 @@ def as_rat(v):
     if isinstance(v, DictValue):
         raise Unsupported("dict value inside an application")
     return need(v)
+
+
+def hi_ok(n):
+    """a trip count small enough to execute the loop iteration by iteration"""
+    return n <= 64
 
 
 def const_of(v):
@@ -123,6 +134,15 @@ def _key(v):
     return repr(v)
 
 
+def fkey(v):
+    """structural key of a value (atoms are interned: equal keys <=> same canonical form); much cheaper than the printed form"""
+    if isinstance(v, tuple):
+        return tuple(fkey(x) for x in v)
+    if israt(v):
+        return (v.n.key(), v.d.key())
+    return repr(v)
+
+
 def b_const(b):
     return TRUE if b else FALSE
 
@@ -149,7 +169,7 @@ def _b_nary(name, vals, absorbing, neutral):
             return F.sym(absorbing)
         if is_sym(v, neutral):
             continue
-        out[_key(v)] = v
+        out[fkey(v)] = v
     if not out:
         return F.sym(neutral)
     if len(out) == 1:
@@ -202,7 +222,7 @@ def eq0(a, b):
     if sa and sb and sa[:1] in "'\"" and sb[:1] in "'\"":
         return b_const(sa == sb)
     m = -e
-    return F.fn("eq0", e if _key(e) <= _key(m) else m)
+    return F.fn("eq0", e if fkey(e) <= fkey(m) else m)
 
 
 def is_bool_value(v):
@@ -369,20 +389,38 @@ class Shared:
         self.index_syms = set()
         self.tests = []                 # (value, truth, node, enclosing loops) of every statement-level test met
         self.notes = []
+        self.rank_of = {}               # repr(value) -> number of dimensions, declared by the rule for values it has identified by role
+        self.scalar_uses = set()        # repr(value) of everything used where numpy / Python require an integer scalar (slice bounds, range / arange / int arguments)
+        self.elementwise_where = False  # np.where(c, a, b) selects element by element: only the facts (never the rule's oracle) may decide c
+        self.on_unknown = None          # (call node, evaluator) -> value | NotImplemented : consulted when a followed helper returns something not understood
+        self.inline_policy = None       # (function def, positional values, keyword values, evaluator) -> bool : follow this call (default: always)
+        self.concrete = False           # finite-world evaluation: constant ranges are unrolled (break / for-else executed), zeros(n) is a list of n zeros
 
     def scratch(self):
         s = Shared(self.src, self.facts, None, self.call, None, self.inline, self.consts, self.modnames, self.binop, self.ranks)
         s.index_syms = self.index_syms
+        s.concrete = self.concrete
+        s.rank_of, s.scalar_uses = self.rank_of, self.scalar_uses
         return s
 
 
 def module_consts(ctx, rel):
     """{name: value node} of module-level names bound once to a literal, including `dict(k=literal, ...)`"""
     m = ctx.src.mod(rel)
+    if getattr(m, "_c19_consts", None) is None:
+        m._c19_consts = _module_consts(m)
+    return m._c19_consts
+
+
+def _module_consts(m):
     count, val = {}, {}
 
     def literal(v):
         if isinstance(v, ast.Call):
+            if dotted(v.func) in ("partial", "functools.partial"):
+                # partial(f, literal..., key=literal...): a module-level callable; applied by value in V.call
+                return bool(v.args) and dotted(v.args[0]) is not None and all(isinstance(a, ast.Constant) for a in v.args[1:]) \
+                    and all(k.arg is not None and isinstance(k.value, ast.Constant) for k in v.keywords)
             return isinstance(v.func, ast.Name) and v.func.id == "dict" and not v.args and all(k.arg is not None and literal(k.value) for k in v.keywords)
         return all(isinstance(x, (ast.Constant, ast.Tuple, ast.List, ast.Dict, ast.Name, ast.UnaryOp, ast.USub, ast.UAdd, ast.Load, ast.BinOp, ast.operator,
                                   ast.Attribute)) for x in ast.walk(v))
@@ -404,7 +442,9 @@ def module_consts(ctx, rel):
 def module_names(ctx, rel):
     """names bound by import statements at module level (module aliases and imported callables)"""
     m = ctx.src.mod(rel)
-    out = set()
+    if getattr(m, "_c19_names", None) is not None:
+        return m._c19_names
+    out = m._c19_names = set()
     for st in ast.walk(m.tree):
         if isinstance(st, (ast.Import, ast.ImportFrom)):
             for a in st.names:
@@ -424,6 +464,10 @@ class V:
         self.done = False
         self.skip = False
         self.mutated = set()
+        self.aug = set()                # names updated by an augmented assignment and by nothing else
+        self.rebound = set()
+        self.brk = False
+        self.fn = None                  # the function whose body this frame evaluates (None: the rule's anchor)
         self.local_funcs = {}
 
     # ---- helpers
@@ -452,6 +496,12 @@ class V:
     def rank(self, v):
         if isinstance(v, tuple) or not israt(v):
             return None
+        if self.sh.rank_of or self.sh.scalar_uses:
+            key = fkey(v)
+            if key in self.sh.rank_of:
+                return self.sh.rank_of[key]
+            if key in self.sh.scalar_uses:
+                return 0
         best = 0
         for p_ in (v.n, v.d):
             for a in p_.atoms():
@@ -461,10 +511,24 @@ class V:
                 best = max(best, r)
         return best
 
+    def is_array(self, v):
+        """certainly an array: some term of v has a factor of known dimension >= 1 (whatever the other factors are)"""
+        if not israt(v):
+            return False
+        if (self.rank(v) or 0) >= 1:
+            return True
+        return any((self._rank_atom(F.atom_desc(a)) or 0) >= 1 for a in v.n.atoms())
+
     def _rank_atom(self, d):
         if d[0] == "s":
             if d[1] in self.sh.index_syms:
                 return 0
+            if self.sh.rank_of or self.sh.scalar_uses:
+                key = fkey(F.sym(d[1]))
+                if key in self.sh.rank_of:
+                    return self.sh.rank_of[key]
+                if key in self.sh.scalar_uses:
+                    return 0
             return self.sh.ranks.get(d[1])
         if d[0] in ("exp", "sin", "cos", "sqrt"):
             return self.rank(F.Rat(F._poly_from_key(d[1])))
@@ -494,6 +558,15 @@ class V:
             return None if any(r is None for r in rs) else max(rs)
         if nm == "call:np.diff":
             return self.rank(args[0])
+        if nm in ("call:np.arange", "call:np.linspace"):
+            return 1
+        if nm in ("call:np.mean", "call:np.sum", "call:np.argmax", "call:np.argmin", "call:np.max", "call:np.min") and len(args) == 1:
+            return 0          # (no axis: over the whole array)
+        if nm in ("call:round", "int", "floor"):
+            return self.rank(args[0])
+        if nm == "call:np.searchsorted":
+            pos_ = call_args(args)[0]
+            return self.rank(pos_[1]) if len(pos_) >= 2 else None          # one insertion point per value searched for
         if nm == "cat":
             rs = [self.rank(x) for x in args[1:]]
             if any(r is None for r in rs):
@@ -513,6 +586,47 @@ class V:
                 else:
                     return None
             return r if r >= 0 else None
+        return None
+
+    def shape_dim(self, v, k):
+        """X.shape[k] for a constant k, where the value X shows it (None: not shown - the load stays symbolic)"""
+        if not israt(v):
+            return None
+        for nm in ("zeros", "ones", "empty"):
+            z = un(v, nm)
+            if z is not None:
+                t = un(z[0], "tuple")
+                if t is not None and -len(t) <= k < len(t):
+                    return t[k]
+                return None
+        c = un(v, "col")
+        if c is not None:
+            if k in (1, -1):
+                return F.const(1)
+            if k in (0, -2) and self.rank(c[0]) == 1:
+                return self.np_call("len", [c[0]], {}, None)
+            return None
+        for nm in ("store", "carried", "call:np.cumsum"):
+            a = un(v, nm)
+            if a is not None:
+                return self.shape_dim(a[0], k)
+        a = un(v, "loopres")
+        if a is not None:
+            return self.shape_dim(a[2], k)
+        a = un(v, "cat")
+        if a is not None:
+            ax = int_of(a[0])
+            rs = [self.rank(x) for x in a[1:]]
+            if ax is None or any(r is None for r in rs) or len(set(rs)) != 1 or rs[0] < 2:
+                return None
+            r = rs[0]
+            kk, aa = (k + r if k < 0 else k), (ax + r if ax < 0 else ax)
+            if not (0 <= kk < r) or kk == aa:
+                return None
+            for x in a[1:]:          # along an axis that is not the concatenation axis all parts have the same extent
+                d = self.shape_dim(x, k)
+                if d is not None:
+                    return d
         return None
 
     def cat(self, name, parts, axis):
@@ -617,6 +731,11 @@ class V:
         tr = un(base, "call:np.transpose")
         if tr is not None and len(tr) == 1 and len(parts) == 1 and self.intlike(parts[0]):
             return self.mk_idx(tr[0], F.fn("tuple", FULL, parts[0]))
+        shp = un(base, "attr:shape")
+        if shp is not None and len(parts) == 1 and int_of(parts[0]) is not None:
+            d = self.shape_dim(shp[0], int_of(parts[0]))
+            if d is not None:
+                return d
         if self.sh.rewrite is not None:
             r = self.sh.rewrite(base, ix, self)
             if r is not NotImplemented:
@@ -725,6 +844,12 @@ class V:
                     if is_unknown(v):
                         return v
                     parts.append(as_rat(v))
+                    self.sh.scalar_uses.add(fkey(parts[-1]))          # a slice bound is an integer scalar
+                    b_ = parts[-1]
+                    if b_.d.is_const() and b_.d.const_value() == 1 and len([m for m in b_.n.t if m]) == 1:
+                        (m_, c_), = [(m, c) for m, c in b_.n.t.items() if m]
+                        if abs(c_) == 1 and len(m_) == 1 and m_[0][1] == 1 and b_.n.const_value().denominator == 1:
+                            self.sh.scalar_uses.add(fkey(F.Rat(F.Poly.atom(m_[0][0]))))          # x + k an integer, k an integer: so is x
             return mk_slice(*parts)
         v = self.ev(sl)
         if isinstance(v, tuple):
@@ -820,6 +945,8 @@ class V:
                 if isinstance(v, tuple):
                     v = b_const(len(v) > 0)
                 vs.append(need(v))
+                if is_sym(v, "False" if isinstance(node.op, ast.And) else "True"):
+                    break          # Python does not evaluate the operands after the one that decides
             return b_and(vs) if isinstance(node.op, ast.And) else b_or(vs)
         if isinstance(node, ast.IfExp):
             cv = self._ev(node.test)
@@ -937,6 +1064,8 @@ class V:
         a, b = need(a), need(b)
         if isinstance(op, (ast.BitAnd, ast.BitOr)):
             return b_and([a, b]) if isinstance(op, ast.BitAnd) else b_or([a, b])
+        if isinstance(op, (ast.Add, ast.Sub, ast.Mult)):
+            a, b = [F.const(1 if is_sym(x, "True") else 0) if (is_sym(x, "True") or is_sym(x, "False")) else x for x in (a, b)]          # True == 1
         if isinstance(op, ast.FloorDiv):
             return self.floordiv(a, b)
         if self.sh.binop is not None and node is not None:
@@ -964,6 +1093,24 @@ class V:
         except Unsupported as e:
             return Unknown(str(e))
         return Unknown(f"operator {type(op).__name__}")
+
+    def _shape_tuple(self, v):
+        """X.shape / X.shape[i:j] as a Python tuple of its elements when the number of dimensions of X is known (else v itself)"""
+        sl = [None, None, None]
+        base = v
+        inner = un(v, "idx")
+        if inner is not None:
+            base, sl = inner[0], unslice(inner[1])
+            if sl is None:
+                return v
+        shp = un(base, "attr:shape")
+        r = self.rank(shp[0]) if shp is not None else None
+        if r is None:
+            return v
+        b = [None if x is None else int_of(x) for x in sl]
+        if any(x is not None and y is None for x, y in zip(sl, b)):
+            return v
+        return PyTuple([self.mk_idx(base, F.const(k)) for k in range(r)][slice(*b)])
 
     @staticmethod
     def _shape_seq(v):
@@ -1033,8 +1180,16 @@ class V:
                 return Unknown(str(e))
             return r if isinstance(op, ast.In) else b_not(r)
         if isinstance(a, tuple) or isinstance(b, tuple) or isinstance(a, DictValue) or isinstance(b, DictValue):
-            if isinstance(a, tuple) and isinstance(b, tuple) and isinstance(op, (ast.Eq, ast.NotEq)) and len(a) != len(b):
-                return b_const(isinstance(op, ast.NotEq))
+            if isinstance(op, (ast.Eq, ast.NotEq)):
+                # X.shape[i:j] == (m, n): element-wise, when the number of dimensions of X is known
+                a = self._shape_tuple(a) if israt(a) else a
+                b = self._shape_tuple(b) if israt(b) else b
+            if isinstance(a, tuple) and isinstance(b, tuple) and isinstance(op, (ast.Eq, ast.NotEq)):
+                if len(a) != len(b):
+                    return b_const(isinstance(op, ast.NotEq))
+                if all(israt(x) for x in tuple(a) + tuple(b)):
+                    r = b_and([eq0(x, y) for x, y in zip(a, b)])
+                    return r if isinstance(op, ast.Eq) else b_not(r)
             return Unknown("comparison of tuples")
         a, b = need(a), need(b)
         if isinstance(op, (ast.Is, ast.IsNot)):
@@ -1043,7 +1198,7 @@ class V:
             elif (_strsym(a) in ("None", "True", "False") or const_of(a) is not None) and (_strsym(b) in ("None", "True", "False") or const_of(b) is not None):
                 r = FALSE
             else:
-                x, y = (a, b) if _key(a) <= _key(b) else (b, a)
+                x, y = (a, b) if fkey(a) <= fkey(b) else (b, a)
                 r = F.fn("is", x, y)
             return r if isinstance(op, ast.Is) else b_not(r)
         # |x| < c  /  |x| <= c  (c on either side): a window, the same value as  -c < x < c
@@ -1100,16 +1255,49 @@ class V:
         f = node.func
         name = dotted(f)
         callee = None
+        if isinstance(f, ast.Attribute) and f.attr in ("append", "extend") and isinstance(f.value, ast.Name) and isinstance(self.env.get(f.value.id), PyTuple) \
+                and len(node.args) == 1 and not node.keywords and not isinstance(node.args[0], ast.Starred):
+            # a list local built up with append / extend
+            v = self.ev(node.args[0])
+            if f.attr == "extend" and not isinstance(v, tuple):
+                self.env[f.value.id] = Unknown("list extended by a computed sequence")
+            else:
+                self.env[f.value.id] = PyTuple(tuple(self.env[f.value.id]) + (tuple(v) if f.attr == "extend" else (v,)))
+            return NONE
         if name is not None:
             root = name.split(".")[0]
             bound = self.lookup(root)
             if "." not in name:
-                if name in self.local_funcs or (bound is None and name in self.sh.inline):
-                    fn_, outer = self.local_funcs.get(name, (self.sh.inline.get(name), None))
+                target = name
+                if bound is not None and name not in self.local_funcs and _strsym(bound) in self.sh.inline and self.lookup(_strsym(bound)) is None:
+                    target, bound = _strsym(bound), None          # a local that holds a function of the module: finder = _find_x ; finder(a, b)
+                if target in self.local_funcs or (bound is None and target in self.sh.inline):
+                    fn_, outer = self.local_funcs.get(target, (self.sh.inline.get(target), None))
                     r = self.inline_call(node, fn_, outer)
+                    if r is not NotImplemented and self.sh.on_unknown is not None and outer is None and _has_unknown(r):
+                        r2 = self.sh.on_unknown(node, self)          # a helper that cannot be followed cleanly: the rule may name its result instead
+                        if r2 is not NotImplemented:
+                            return r2
                     if r is not NotImplemented:
                         return r
+                    if target != name:
+                        name = target
+                pn = self.sh.consts.get(name) if bound is None else None
+                if isinstance(pn, ast.Call) and dotted(pn.func) in ("partial", "functools.partial") and self.lookup(dotted(pn.args[0]).split(".")[0]) is None:
+                    # NAME = partial(f, a..., k=v...) at module level:  NAME(x..., j=w...) = f(a..., x..., k=v..., j=w...)
+                    return self.call(ast.copy_location(ast.Call(func=pn.args[0], args=list(pn.args[1:]) + list(node.args), keywords=list(pn.keywords) + list(node.keywords)), node))
                 if bound is not None:
+                    pa = un(bound, "call:partial") or un(bound, "call:functools.partial")
+                    f0 = _strsym(pa[0]) if pa else None
+                    if f0 and self.lookup(f0.split(".")[0]) is None:
+                        # a local bound to partial(f, ...): applied by value
+                        pos, kw, err = self._args(node)
+                        if err is not None:
+                            return err
+                        ppos, pkw = call_args(pa[1:])
+                        pkw = dict(pkw)
+                        pkw.update(kw)
+                        return self.np_call(f0, list(ppos) + pos, pkw, node)
                     callee, name = bound, None
             elif bound is not None or root not in self.sh.modnames:
                 # a method of a value
@@ -1127,6 +1315,15 @@ class V:
             if is_unknown(callee):
                 return callee
             return self.record("<apply>", pos, kw, node, callee)
+        outk = next((k for k in node.keywords if k.arg == "out"), None)
+        if outk is not None and name is not None and name.split(".")[0] in ("np", "numpy") and isinstance(outk.value, (ast.Name, ast.Subscript)):
+            # np.f(a, b, out=X): X receives the result (in place) and is the value of the call
+            kw = {k: v for k, v in kw.items() if k != "out"}
+            val = self.np_call(name, pos, kw, node)
+            self.assign(outk.value, val, node)
+            if isinstance(outk.value, ast.Name):
+                self.mutated.add(outk.value.id)
+            return val
         return self.np_call(name, pos, kw, node)
 
     def method(self, recv, attr, node):
@@ -1163,6 +1360,17 @@ class V:
             return F.const(abs(c)) if c is not None else F.fn("abs", pos[0])
         if name == "dict" and not pos:
             return DictValue(dict(kw))
+        if name == "np.take" and n >= 2 and israt(pos[0]) and israt(pos[1]) and set(kw) <= {"axis"} and n <= 3:
+            ax = kw.get("axis", pos[2] if n == 3 else None)
+            if ax is None or is_sym(ax, "None") or int_of(ax) == 0:
+                return self.mk_idx(pos[0], pos[1])          # take(a, i) / take(a, i, axis=0) = a[i]  (axis None: for the 1-D arrays this is used on)
+        if name == "slice" and 1 <= n <= 3 and not kw and all(israt(x) for x in pos):
+            lo, hi, st = (None, pos[0], None) if n == 1 else (pos[0], pos[1], pos[2] if n == 3 else None)
+            parts = [None if x is None or is_sym(x, "None") else x for x in (lo, hi, st)]
+            for x in parts:
+                if x is not None:
+                    self.sh.scalar_uses.add(fkey(x))
+            return mk_slice(*parts)          # the slice object slice(a, b) is the index a:b
         if name == "len" and n == 1:
             if isinstance(pos[0], tuple):
                 return F.const(len(pos[0]))
@@ -1178,6 +1386,21 @@ class V:
                 hi = n0 if hi is None else (n0 + hi if const_of(hi) is not None and const_of(hi) < 0 else hi)
                 return hi - lo
             return F.fn("len", as_rat(pos[0]))
+        if name in ("np.isclose", "np.allclose", "math.isclose") and 2 <= n <= 4 and all(israt(x) for x in list(pos) + list(kw.values())):
+            # the documented tests:  |a - b| <= atol + rtol |b|   (numpy, rtol = 1e-5, atol = 1e-8)
+            #                        |a - b| <= max(rel_tol max(|a|, |b|), abs_tol)   (math, rel_tol = 1e-9, abs_tol = 0)
+            ab = lambda x: self.np_call("abs", [x], {}, node)      # noqa
+            if name.startswith("np."):
+                a_ = dict(zip(("rtol", "atol"), pos[2:]))
+                a_.update(kw)
+                if set(a_) <= {"rtol", "atol"}:
+                    tol = a_.get("atol", F.const(Fraction("1e-8"))) + a_.get("rtol", F.const(Fraction("1e-5"))) * ab(pos[1])
+                    d_ = pos[0] - pos[1]
+                    return b_and([le0(d_ - tol), le0(-d_ - tol)])
+            elif n == 2 and set(kw) <= {"rel_tol", "abs_tol"}:
+                tol = self.extremum("max", [kw.get("rel_tol", F.const(Fraction("1e-9"))) * self.extremum("max", [ab(pos[0]), ab(pos[1])]), kw.get("abs_tol", F.const(0))])
+                d_ = pos[0] - pos[1]
+                return b_and([le0(d_ - tol), le0(-d_ - tol)])
         if name in ("np.logical_and", "np.logical_or") and n == 2 and not kw and all(israt(x) for x in pos):
             return b_and(pos) if name.endswith("and") else b_or(pos)
         if name == "np.logical_not" and n == 1 and not kw and israt(pos[0]):
@@ -1198,7 +1421,7 @@ class V:
                 v = self.extremum("min", [v, pos[2]])
             return v
         if name == "np.where" and n == 3 and not kw:
-            c = self.truth(pos[0])
+            c = V(self.sh.scratch()).truth(pos[0]) if self.sh.elementwise_where else self.truth(pos[0])          # (scratch: facts only, no oracle)
             self.sh.tests.append((pos[0], c, node, tuple(self.sh.loop_stack)))
             if c is not None:
                 return pos[1] if c else pos[2]
@@ -1213,6 +1436,8 @@ class V:
             return F.fn("floor", pos[0]) if name.endswith("floor") else -F.fn("floor", -pos[0])
         if name == "np.arange" and n == 2 and not kw and israt(pos[0]) and pos[0].is_zero():
             return self.np_call(name, pos[1:], kw, node)
+        if self.sh.concrete and name in ("np.zeros", "np.ones", "np.empty") and n >= 1 and int_of(pos[0]) is not None and 0 <= int_of(pos[0]) <= 64:
+            return PyTuple([F.const(1 if name == "np.ones" else 0)] * int_of(pos[0]))          # a 1-D array of known length, element by element
         if name in ("np.zeros", "np.ones", "np.empty") and (n >= 1 or "shape" in kw):
             return F.fn(name[3:], as_rat(pos[0] if n else kw["shape"]))
         if name in ("np.zeros_like", "np.ones_like", "np.empty_like") and n >= 1 and israt(pos[0]):
@@ -1249,10 +1474,11 @@ class V:
     def extremum(self, kind, vals):
         """max / min of values: decided pairwise from the facts where possible; otherwise a commutative atom"""
         keep = []
+        facts_only = V(self.sh.scratch())          # (the rule's oracle answers for the code's own tests, not for these comparisons)
         for v in vals:
             dominated = False
             for w in list(keep):
-                t = self.truth(le0(v - w))          # v <= w ?
+                t = facts_only.truth(le0(v - w))          # v <= w ?
                 if t is None:
                     continue
                 v_small = t
@@ -1264,7 +1490,7 @@ class V:
                 keep.append(v)
         if len(keep) == 1:
             return keep[0]
-        ks = sorted(keep, key=_key)
+        ks = sorted(keep, key=fkey)
         return F.fn(kind, *ks)
 
     def record(self, name, pos, kw, node, callee):
@@ -1303,6 +1529,8 @@ class V:
         pos, kw, err = self._args(node)
         if err is not None or len(pos) > len(params):
             return NotImplemented
+        if self.sh.inline_policy is not None and outer is None and not self.sh.inline_policy(fn, pos, kw, self):
+            return NotImplemented
         env = dict(zip(params, pos))
         kwonly = [x.arg for x in a.kwonlyargs]
         for k, v in kw.items():
@@ -1322,11 +1550,15 @@ class V:
                     return NotImplemented
                 env[p_] = sub0.ev(d)
         sub = V(self.sh, env, outer, self.depth + 1)
+        sub.fn = fn
         sub.run(fn.body)
         # in-place updates of a mutable argument are visible to the caller
         for p_, an in zip(params, node.args):
             if p_ in sub.mutated and isinstance(an, ast.Name) and p_ in sub.env:
                 self.env[an.id] = sub.env[p_]
+                self.mutated.add(an.id)
+            elif p_ in sub.aug and isinstance(an, ast.Name) and p_ in sub.env and self.is_array(env[p_]):
+                self.env[an.id] = sub.env[p_]          # x += y on an array argument works in place (numpy)
                 self.mutated.add(an.id)
         if not sub.returns:
             return NONE
@@ -1345,6 +1577,12 @@ class V:
     def assign(self, target, v, st):
         if isinstance(target, ast.Name):
             self.env[target.id] = v
+            if isinstance(st, ast.AugAssign):
+                if target.id not in self.rebound:
+                    self.aug.add(target.id)
+            else:
+                self.rebound.add(target.id)
+                self.aug.discard(target.id)
         elif isinstance(target, ast.Starred):
             self.assign(target.value, v, st)
         elif isinstance(target, (ast.Tuple, ast.List)):
@@ -1355,6 +1593,9 @@ class V:
             elif isinstance(v, tuple) and len(v) == n:
                 for t, x in zip(target.elts, v):
                     self.assign(t, x, st)
+            elif israt(v) and (_strsym(v) or "").startswith("@"):
+                for k, t in enumerate(target.elts):
+                    self.assign(t, F.sym(f"{_strsym(v)}.{k}"), st)          # the members of the tuple an opaque helper returns: one symbol each
             elif israt(v):
                 for k, t in enumerate(target.elts):
                     self.assign(t, self.mk_idx(v, F.const(k)), st)
@@ -1404,6 +1645,8 @@ class V:
             self.done = True
         elif isinstance(st, ast.Continue):
             self.skip = True
+        elif isinstance(st, ast.Break) and self.sh.concrete:
+            self.skip = self.brk = True          # (only reached under decided tests: an undecided `if` that contains a break is not followed)
         elif isinstance(st, ast.Raise):
             self.done = True
         elif isinstance(st, (ast.FunctionDef,)):
@@ -1424,6 +1667,9 @@ class V:
                 tg = [n.target]
             elif isinstance(n, ast.NamedExpr):
                 tg = [n.target]
+            elif isinstance(n, ast.Call) and isinstance(n.func, ast.Attribute) and n.func.attr in ("append", "extend", "insert", "pop", "remove", "sort", "reverse", "clear") \
+                    and isinstance(n.func.value, ast.Name):
+                out.add(n.func.value.id)          # in-place list edits
             for t in tg:
                 for x in ast.walk(t):
                     if isinstance(x, ast.Name) and isinstance(x.ctx, ast.Store):
@@ -1484,6 +1730,8 @@ class V:
                 lo, hi = (F.const(0), a[0]) if len(a) == 1 else (a[0], a[1])
                 if len(a) == 3 and not eq(a[2], F.const(1)):
                     return Unknown("range with a step"), None
+                if self.sh.concrete and int_of(lo) is not None and int_of(hi) is not None and hi_ok(int_of(hi) - int_of(lo)):
+                    return PyTuple(F.const(i) for i in range(int_of(lo), int_of(hi))), "unroll"
                 return lo + k, hi - lo
             if f == "enumerate" and 1 <= len(it.args) <= 2:
                 x, n = self._elem(it.args[0], k)
@@ -1520,6 +1768,7 @@ class V:
             k = F.sym(kname)
             elem, n = self._elem(st.iter, k)
             if n == "unroll":
+                broke = False
                 for x in elem:
                     self.assign(st.target, x, st)
                     self.skip = False
@@ -1527,6 +1776,11 @@ class V:
                     self.skip = False
                     if self.done:
                         return
+                    if self.brk:
+                        self.brk, broke = False, True
+                        break
+                if not broke and st.orelse:
+                    self.run(st.orelse)
                 return
             if n is None or is_unknown(elem):
                 return self._havoc(st, "assigned inside a loop that is not understood")
